@@ -7,6 +7,7 @@ checked too)."""
 import itertools
 import numpy as np
 
+from .. import hist_stale
 from ..common import Result
 
 PID = 'C14'
@@ -60,6 +61,10 @@ def cases(tier, seed):
     for k in range(6):
         yield {'kind': 'large', 'k': k}
     yield {'kind': 'fitinvalid'}
+    import random
+    # chunk iteration through a handle whose array was changed by other means (by path, second handle, re-creation)
+    yield from hist_stale.array_cases(random.Random(f'C14:{seed}:stale'), 150 if tier == 'quick' else 2000, seed,
+                                      hops=['h:chunks', 'h:chunks', 'h:app', 'h:trunc'])
     for k in range(16 if tier == 'quick' else 64):
         yield {'kind': 'fitrandom', 'k': k}
 
@@ -116,6 +121,10 @@ def run_case(case, env):
     sigs = set()
     kind = case['kind']
     res.dim('kind', kind)
+    if kind == 'stale':
+        hist_stale.run_array(env, res, case)
+        res.sig = hist_stale.sig_of(case)
+        return res
     n0 = _contract['n']
     if kind == 'fit':
         from darr.utils import fit_frames
